@@ -450,6 +450,9 @@ func (w *worker[T, JobType]) goEventLoop() {
 					w.sendError(err)
 				}
 			}
+
+			// the queue may have been emptied without any job finishing (purge)
+			w.releaseWaiters(w.curProcessing.Load())
 		}
 	}(w.eventLoopSignal)
 }
